@@ -79,10 +79,11 @@ UpdateF(m, s, t, Dev) ==
             !.ts = Append(m.ts, t),
             !.viol = IF m.ts # <<>> /\ BadGap(m.cfg, t - m.ts[Len(m.ts)]) THEN m.viol + 1 ELSE m.viol]
 
-\* reset(): operators back to their initial memories, histories and counters cleared
+\* reset(): operators back to their initial memories, histories and counters cleared.  Before the first update it changes
+\* nothing: the phase stays what it was, so pastify() may still follow (parse, reset, pastify, update ...)
 CanReset(m) == OnlinePhase(m) /\ OnlineOK(m.inst)
 ResetF(m, Dev) ==
-  [m EXCEPT !.phase = "online", !.on = InitOn(m.inst), !.outOn = <<>>,
+  [m EXCEPT !.on = InitOn(m.inst), !.outOn = <<>>,
             !.hist = EmptyW(m.cfg.vars), !.ts = <<>>,
             !.viol = IF "resetKeepsViol" \in Dev THEN m.viol ELSE 0]
 
